@@ -17,7 +17,7 @@ use serde::{Deserialize, Serialize};
 use std::collections::BTreeMap;
 
 #[derive(Clone, Debug, Serialize, Deserialize)]
-enum Case {
+pub enum Case {
     /// Constant::<op>(a, b)
     Method { op: String, a: Bv, b: Bv },
     /// Constant::{zext,sext,trun}(target)
@@ -307,7 +307,7 @@ fn mutate(t: &mut Tape, e: &Expression) -> Expression {
     go(e, &mut target, t)
 }
 
-fn decode(t: &mut Tape) -> Case {
+pub fn decode(t: &mut Tape) -> Case {
     match t.weighted(&[40, 14, 18, 8, 8, 6, 6]) {
         0 => {
             let op = BIN_OPS[t.below(BIN_OPS.len())].to_string();
@@ -640,7 +640,7 @@ fn compare_eval(what: &str, e: &Expression, env: &refil::Scalars, falcon_e: &Exp
     Ok(())
 }
 
-fn check(case: &Case, obs: &mut Obs) -> Result<(), Failure> {
+pub fn check(case: &Case, obs: &mut Obs) -> Result<(), Failure> {
     match case {
         Case::Method { op, a, b } => {
             obs.class("method");
@@ -826,7 +826,7 @@ fn check(case: &Case, obs: &mut Obs) -> Result<(), Failure> {
     Ok(())
 }
 
-fn render(c: &Case) -> String {
+pub fn render(c: &Case) -> String {
     match c {
         Case::Method { op, a, b } => format!("Constant::{}({}, {})", op, a, b),
         Case::Ext { op, a, target } => format!("Constant::{}({}, {})", op, a, target),
@@ -838,6 +838,19 @@ fn render(c: &Case) -> String {
     }
 }
 
+/// libFuzzer entry: the input bytes are the entropy tape (little-endian u32 words).
+pub fn fuzz_bytes(data: &[u8]) {
+    let mut tape: Vec<u32> = data.chunks(4).map(|c| {
+        let mut b = [0u8; 4];
+        b[..c.len()].copy_from_slice(c);
+        u32::from_le_bytes(b)
+    }).collect();
+    tape.truncate(260);
+    let case = decode(&mut Tape::new(&tape));
+    engine::fuzz_one("C04", &case, &render, &check);
+}
+
+#[allow(dead_code)]
 fn main() -> std::process::ExitCode {
     if let Err(e) = fv::bv::self_test() {
         println!("HARNESS-ERROR property=C04 {}", e);
